@@ -63,11 +63,13 @@ def gen_case(rng):
     if kind in ('any', 'single') and rng.random() < 0.5: inert = rng.choice(['N2', 'Glucose'])
     return {'kind': kind, 'ids': ids, 'x': x, 'F': round(10 ** rng.uniform(-2, 3), 5), 'inert': inert, 'inert_frac': round(rng.uniform(0.001, 0.02), 5),
             'T': round(rng.uniform(280, 450), 2), 'P': round(10 ** rng.uniform(math.log10(2e4), 6), 1), 'V': round(rng.uniform(0.03, 0.97), 4), 'f': round(rng.uniform(0.05, 0.95), 4) if rng.random() < 0.65 else rng.choice([-0.015, -0.005, 0.002, 0.01, 0.03, 0.97, 0.99, 1.005, 1.015]),
-            'k': round(10 ** rng.uniform(-3, 3), 6)}
+            'k': round(10 ** rng.uniform(-3, 3), 6),
+            # the state the stream is in BEFORE each flash: the specified values must be written, not merely kept
+            'dT0': rng.choice([0.0, round(rng.uniform(-60, 60), 2), round(rng.uniform(-60, 60), 2)]), 'P0f': rng.choice([1.0, 0.5, 2.0, round(10 ** rng.uniform(-0.5, 0.5), 3)])}
 
 
 def make(case, th, scale=1.0):
-    s = tmo.MultiStream(None, phases=('g', 'l'), T=case['T'], P=case['P'], thermo=th)
+    s = tmo.MultiStream(None, phases=('g', 'l'), T=max(255., case['T'] + case.get('dT0', 0.0)), P=case['P'] * case.get('P0f', 1.0), thermo=th)
     F = case['F'] * scale
     for i, v in zip(case['ids'], case['x']): s.imol['l', i] = v * F
     if case['inert']:
